@@ -6,10 +6,20 @@ from checks.db_common import run_db
 META = dict(
     engine="coq+hx_core",
     technique="Coq proof about the executable database model + differential correspondence of the extracted model with the real agdb on generated query histories",
-    level_text="PLACEHOLDER (to be finalised with the theorem names of coq/Props/C08.v): machine-checked theorems about the executable slot-array model of "
-               "agdb's graph (theories/Graph.v) and of DbImpl's node/edge mutations (theories/DbModel.v), proofs in theories/GraphProofs.v; the model is tied "
-               "to /repo on every run by executing generated histories of node/edge inserts and removals (with id reuse) on the real database and on the "
-               "extracted model and comparing every query result and periodic full dumps.",
+    level_text="Machine-checked refinement proof (coq/Props/C08.v, all statements full, unbounded, closed under the global context) that the slot-array model of "
+               "agdb's graph (theories/Graph.v, line by line from graph.rs) simulates an abstract directed multigraph (nodes + edges newest-first, per-node ordered "
+               "out-/in-lists): C08_wf_new (empty graph), C08_insert_node / C08_insert_edge (new id positive / negative, magnitude used by no node and no edge, exactly "
+               "that element added, a new edge at the head of both adjacency lists), C08_insert_edge_missing (missing endpoint: fails, no new graph), C08_remove_edge / "
+               "C08_remove_node (+_absent: the unlink loops find_prev / remove_from_edges / remove_to_edges never run out of fuel; exactly the edge, resp. the node and "
+               "every incident edge - a self-loop once - is removed, order of the other lists preserved), C08_observations (node_count, graph_index, element iteration, "
+               "out_edges / in_edges in order, edge_count_from / edge_count_to = abstract degrees with a self-loop on both sides, edge endpoints all equal the abstract "
+               "graph), C08_abs_unique, and the lifting to ALL histories C08_history_refines / C08_history_sim (for every list of sign-correct operations from the empty "
+               "graph: never out of fuel, every returned id accepted by the acceptor specification C08_astep_def, final graph well-formed and observably the abstract "
+               "graph); wf-only corollaries C08_wf_preserved, C08_wf_adjacency, C08_wf_edge_ends. DbImpl level (theories/DbCascadeProofs.v): see C08_db_cascade* in "
+               "coq/Props/C08.v for what is proved about remove_id (node, incident edges, their key-value lists, the alias). Ids are assumed to carry the sign of "
+               "their kind, which DbImpl guarantees via graph_index (C08_raw_negative_endpoint_witness shows the raw GraphImpl API needs it). The model is tied to "
+               "/repo on every run by executing generated histories of node/edge inserts and removals (with id reuse, self-loops, parallel edges, failing inserts) on "
+               "the real database and on the extracted model and comparing every query result and periodic full dumps.",
     design_ref="DESIGN.md §5 C08",
     level_note="Trusted: Coq kernel, extraction (ExtrOcamlBasic), OCaml driver, Rust harness/generators. Theorems are about the model (theories/Graph.v, DbModel.v); "
                "the tie to the code is differential execution of generated histories (every query result and periodic full dumps compared).",
